@@ -47,13 +47,21 @@ CHECKS = {
         technique="Lean 4 theorems on the runner-level model (unittest protocol, TestResult, layer loop) + differential correspondence on generated test worlds + trace monitors",
         design="§5 C16"),
     "C06": dict(
-        text="resume_tests as a labelled transition system (parent loop passes, child output lines, done/dead events in any "
+        text="(1) Whole-run theorems on the runner-level model (Props/C06Run): the iterations of a layer extend the state of "
+             "whichever process runs them by the same events, failures, errors and counts (frame theorem "
+             "C06_layer_same_in_every_process), and for every world with fault-free layer set-up, one group per layer and no "
+             "KeyboardInterrupt, without --stop-on-error, the failures and erroring tests of the whole run (parent plus the "
+             "subprocesses of the layers it hands over) are the layers' contributions in layer order in every mode "
+             "(C06_whole_run), hence equal for -j N and the sequential run (C06_equals_sequential). (2) "
+             "resume_tests as a labelled transition system (parent loop passes, child output lines, done/dead events in any "
              "order). Theorems for every schedule, k and N: never more than N running (not even transiently), the start "
              "loop fills min(N, running+ready) slots, printed output is always the complete blocks of children 0..cur-1 "
              "in layer order, a pass prints every leading done child. Tied to the real resume_tests and the real result "
              "collectors by a fake spawn whose completion order is scripted (all k! orders for small k).",
-        note="OS scheduling, reaping of children and the 10 ms polling are runtime; equality of outcomes with the "
-             "sequential run is covered by the -j N world runs of C02/C03/C12",
+        note="OS scheduling, reaping of children and the 10 ms polling are runtime; the equality with the sequential run "
+             "is proved for test-level outcomes under the stated hypotheses (layer set-up faults indexed by call count can "
+             "legitimately differ between modes) and monitored on the -j N world runs (shuffle_modes, C02/C03/C12); a test's "
+             "script is assumed not to depend on process-global state left by other layers",
         technique="Lean 4 invariants over a transition system + correspondence with the real scheduler loop",
         design="§5 C06"),
     "C14": dict(
